@@ -344,9 +344,13 @@ def report(run, stream, items, outs, fresh, res, limit=3):
         calls = [k for k, s in enumerate(job["steps"]) if s["op"] == "call"]
         k = calls[st]
         key = "C08:" + json.dumps(dict(mods=job["mods"], custom=job["custom"], steps=job["steps"][:k + 1]), sort_keys=True)
-        run.violation(key, f"{describe(info)}: call #{st} {job['steps'][k]['entry']}({job['steps'][k]['tops']}) returns "
-                      f"{outs[i]['steps'][k].get('err') or ('package ' + outs[i]['steps'][k]['ok'])}; first call: "
-                      f"{outs[i]['steps'][0].get('err') or 'ok'}; fresh process: {fresh[i].get(k, {}).get('err') or fresh[i].get(k, {}).get('ok')}",
+        summary = [(s_.get("err", {}).get("msg", "")[:60] if "err" in s_ else ("package " + s_["ok"] if s_.get("ok") else "ok")) +
+                   ("" if all(not v for v in s_["pend"].values()) else " [left pending: " + ",".join(f"{a}{b}" for a, b in s_["pend"].items() if b) + "]")
+                   for s_ in outs[i]["steps"] if s_ is not None and "edit" not in s_]
+        fr = fresh[i].get(k, {})
+        run.violation(key, f"{describe(info)}: call #{st} {job['steps'][k]['entry']}({job['steps'][k]['tops']}) violates the specification; "
+                      f"calls of the history returned: {summary}; a fresh process returns for call #{st}: "
+                      f"{fr.get('err', {}).get('msg', '')[:60] if 'err' in fr else fr.get('ok')}",
                       dict(kind="impl-violates-spec", stream=stream, case=dict(job=job, meta={str(a): b for a, b in meta.items()}, info=info),
                            failing_call=st, impl=[dict((a, b) for a, b in s.items() if a in ("ok", "err", "pend", "failed", "edit"))
                                                   for s in outs[i]["steps"]],
